@@ -97,6 +97,26 @@ def Cls.isA (dyn target : Cls) : Bool :=
 The result names the object found (its dynamic class), never a null reference. -/
 def dynamicCast (dyn target : Cls) : Option Cls := if dyn.isA target then some dyn else none
 
+/-! ## smart pointers -/
+
+/-- `fcppt::unique_ptr_from_std`: `make_if(ptr != nullptr, unique_ptr(move(ptr)))` — the result is never a null fcppt::unique_ptr -/
+def uniquePtrFromStd (nonNull : Bool) : Option Unit := if nonNull then some () else none
+
+/-- `fcppt::weak_ptr::lock`: `result = impl_.lock(); result ? some(shared_ptr(result)) : nothing`; `owners` = live owners before the
+call; the answer carries the use count afterwards -/
+def weakLock (owners : Nat) : Option Nat := if owners = 0 then none else some (owners + 1)
+
+/-! ## math::vector::atan2 -/
+
+inductive FClass where
+  | zero | nonzero | nan
+  deriving Repr, DecidableEq
+
+/-- `atan2(v)`: `make_if(!(is_zero(v.x()) && is_zero(v.y())), std::atan2(v.y(), v.x()))`; a NaN is not zero -/
+def vectorAtan2 (x y : FClass) : Option FClass :=
+  if x = .zero ∧ y = .zero then none
+  else some (if x = .nan ∨ y = .nan then .nan else .nonzero)
+
 /-! ## time -/
 
 structure Tm where
